@@ -288,8 +288,35 @@ fn scenario_pending(sc: &str) -> Result<Violations, String> {
     let dbs = mk_dbs();
     let mut v: Violations = vec![];
     let mut owing: HashMap<u64, Vec<String>> = HashMap::new();
+    // the nodes are members of the cluster table; `l0<node>`: that member leaves (remove_cluster_member, what the `leave` handler and a dropped link do).  What becomes of the
+    // acknowledgements the LEAVING node owed is not stated by the property; what is: an operation a REMAINING member still owes stays pending, and that member's first
+    // acknowledgement still counts
+    for n in ["a", "b", "c"] { dbs.add_cluster_member(ClusterMember { name: n.to_string(), role: ClusterRole::Secoundary, sender: None }); }
+    let mut left: Vec<String> = vec![];
     for ev in sc.split(',').filter(|e| !e.is_empty()) {
         let kind = &ev[0..1]; let op: u64 = ev[1..2].parse().map_err(|_| "bad op")?; let node = ev[2..].to_string();
+        if kind == "l" {
+            if catch_unwind(AssertUnwindSafe(|| dbs.remove_cluster_member(&node))).is_err() { v.push("C10.safety".into()); return Ok(v); }
+            if !left.contains(&node) { left.push(node.clone()); }
+            let pending: Vec<u64> = dbs.pending_opps.read().unwrap().keys().cloned().collect();
+            for (op, nodes) in &owing { if nodes.iter().any(|n| !left.contains(n)) {
+                chk(&mut v, "C15.pending-iff-owing", pending.contains(op)); chk(&mut v, "C15.pending-iff-unacked", pending.contains(op)); chk(&mut v, "C15.still-pending-while-a-member-owes", pending.contains(op)); } }
+            continue;
+        }
+        if !left.is_empty() {
+            // after a departure only the clauses about the remaining members are judged
+            if left.contains(&node) { continue; }
+            if kind == "r" { if owing.get(&op).map_or(false, |o| o.contains(&node)) { continue; } dbs.register_pending_opp(op, "m".into(), &node); owing.entry(op).or_default().push(node); }
+            else {
+                let expect = owing.get(&op).map_or(false, |o| o.contains(&node));
+                let r = dbs.acknowledge_pending_opp(op, &node);
+                chk(&mut v, "C15.ack-exact", r == expect); chk(&mut v, "C15.once", r == expect);
+                if let Some(o) = owing.get_mut(&op) { o.retain(|n| n != &node); if o.is_empty() { owing.remove(&op); } }
+            }
+            let pending: Vec<u64> = dbs.pending_opps.read().unwrap().keys().cloned().collect();
+            for (op, nodes) in &owing { if nodes.iter().any(|n| !left.contains(n)) { chk(&mut v, "C15.pending-iff-owing", pending.contains(op)); chk(&mut v, "C15.still-pending-while-a-member-owes", pending.contains(op)); } }
+            continue;
+        }
         if kind == "r" {
             if owing.get(&op).map_or(false, |o| o.contains(&node)) { continue; } // call-site condition of the contract
             dbs.register_pending_opp(op, "m".into(), &node);
@@ -344,6 +371,10 @@ fn all_pending_scenarios() -> Vec<String> {
     }
     rec(&evs, &mut vec![], if deep() { 6 } else { 5 }, &mut out);
     out.push("race".into());
+    // a member leaves in the middle: every sequence of <= 4 (5) events from registrations / acknowledgements of three nodes for one operation and the departure of a or b
+    let mut withleave = vec![];
+    rec(&["r1a", "r1b", "r1c", "a1a", "a1b", "a1c", "l0a", "l0b"], &mut vec![], if deep() { 5 } else { 4 }, &mut withleave);
+    for t in withleave { if t.contains("l0") && t.contains("r1") { out.push(t); } }
     out
 }
 
@@ -1375,7 +1406,7 @@ fn all_traffic_scenarios() -> Vec<String> {
         for i in 0..TRAFFIC_CLIENT.len() { out.push(format!("{}|{}|{}|c|{}", role, st, arb, i)); }
         for i in 0..TRAFFIC_PEER.len() { out.push(format!("{}|{}|{}|p|{}", role, st, arb, i)); }
     } } }
-    for st in ["none", "newer", "arbiter"] { for origin in ["P", "S"] { for cmd in ["set k v", "set-safe k 1 v", "increment cnt 1", "remove k", "resolve 5 d k 3 v", "create-user eve et"] {
+    for st in ["none", "newer", "arbiter"] { for origin in ["P", "S"] { for cmd in ["set k v", "set-safe k 1 v", "increment cnt 1", "remove k", "resolve 5 d k 3 v", "create-user eve et", "snapshot true", "snapshot false", "snapshot true d", "set-permissions eve r k*"] {
         out.push(format!("cluster|{}|{}|{}", st, origin, cmd));
     } } }
     // two client commands, each on either node, the exchange of the first run to its end before the second is issued
@@ -1614,6 +1645,14 @@ fn all_watch_scenarios() -> Vec<String> {
 fn scenario_lines(sc: &str) -> Result<Violations, String> {
     // NEST|<n>: `rp 1 rp 1 ... get public1` nested n times from an UNAUTHENTICATED client, in a process of its own (a stack overflow aborts the process and cannot be caught in
     // process), on a thread with the default stack of a spawned thread - the way the TCP transport serves a connection.  The node must answer and keep serving (defect 22)
+    if let Some(line) = sc.strip_prefix("CHILD|") {
+        // an administrator's line whose failure mode may be an abort (allocation of a client-chosen size, unbounded recursion): run in a child process
+        let mut v: Violations = vec![];
+        let st = std::process::Command::new(std::env::current_exe().map_err(|e| e.to_string())?).arg("line-child").args(line.split(' '))
+            .stdout(std::process::Stdio::null()).stderr(std::process::Stdio::null()).status().map_err(|e| e.to_string())?;
+        chk(&mut v, "C10.safety", st.code() == Some(0));
+        return Ok(v);
+    }
     if let Some(n) = sc.strip_prefix("NEST|") {
         let mut v: Violations = vec![];
         let st = std::process::Command::new(std::env::current_exe().map_err(|e| e.to_string())?).arg("nest-child").arg(n)
@@ -1667,8 +1706,51 @@ fn scenario_connections_busy() -> Result<Violations, String> {
     chk(&mut v, "C17.mirror", key.as_deref() == Some(base.to_string().as_str()));
     Ok(v)
 }
+/// a database snapshotted while k sessions had it selected, then loaded from disk (a restart): it counts NO session - the `$connections` key on disk is data, not a count - and from
+/// then on the counter and its mirror key follow the sessions of this run only
+fn scenario_connections_restored(k: usize) -> Result<Violations, String> {
+    use nundb::disk_ops::snapshot_all_pendding_dbs;
+    use nundb::storage::disk::{create_db_from_file_name, file_name_from_db_name};
+    let dir = std::env::var("NUN_DBS_DIR").map_err(|_| "NUN_DBS_DIR not set")?;
+    let name = "conndb".to_string();
+    for suf in [".keys", ".values", ".keys.old", ".values.old"] { let _ = std::fs::remove_file(format!("{}{}", file_name_from_db_name(&name), suf)); }
+    let _ = std::fs::remove_file(format!("{}/{}-nun.madadata", dir, name));
+    let dbs = mk_dbs();
+    let w = World { dbs: dbs.clone() };
+    let mut v: Violations = vec![];
+    let ok = catch_unwind(AssertUnwindSafe(|| {
+        let mut viol: Violations = vec![];
+        let (mut admin, mut arx) = Client::new_empty_and_receiver();
+        for c in ["auth u p", "create-db conndb tok"] { run_cmd(&w, &mut admin, &mut arx, c); }
+        let mut open = vec![];
+        for _ in 0..k { let (mut c, mut rx) = Client::new_empty_and_receiver(); run_cmd(&w, &mut c, &mut rx, "use-db conndb tok"); run_cmd(&w, &mut c, &mut rx, "set a 1"); open.push((c, rx)); }
+        dbs.to_snapshot.write().unwrap().push((name.clone(), false));
+        snapshot_all_pendding_dbs(&dbs);
+        // the restart: every session of the old run is gone with its process; the database comes back from its files
+        let (db, _) = create_db_from_file_name(&format!("{}-nun.data.keys", name), &dbs);
+        dbs.map.write().unwrap().insert(name.clone(), db);
+        let count = |dbs: &Arc<Databases>| -> (usize, Option<String>) { let m = dbs.map.read().unwrap(); let db = m.get("conndb").unwrap(); (db.connections_count(), db.get_value("$connections".into()).map(|e| e.value)) };
+        chk(&mut viol, "C17.count-is-open-sessions", count(&dbs).0 == 0);
+        let (mut c1, mut rx1) = Client::new_empty_and_receiver();
+        run_cmd(&w, &mut c1, &mut rx1, "use-db conndb tok");
+        let (n, key) = count(&dbs);
+        if std::env::var("VERIF_TRACE").is_ok() { eprintln!("after the restart and one use-db: counter {} key {:?}", n, key); }
+        chk(&mut viol, "C17.count-is-open-sessions", n == 1); chk(&mut viol, "C17.use-db-increments", n == 1);
+        chk(&mut viol, "C17.mirror", key.as_deref() == Some("1"));
+        c1.left(&dbs);
+        let (n, key) = count(&dbs);
+        chk(&mut viol, "C17.left-decrements", n == 0); chk(&mut viol, "C17.mirror", key.as_deref() == Some("0"));
+        std::mem::forget(arx); std::mem::forget(open);
+        viol
+    }));
+    match ok { Ok(x) => v.extend(x), Err(_) => { v.push("C10.safety".into()); v.push("C17.no-underflow".into()); } }
+    for suf in [".keys", ".values", ".keys.old", ".values.old"] { let _ = std::fs::remove_file(format!("{}{}", file_name_from_db_name(&name), suf)); }
+    let _ = std::fs::remove_file(format!("{}/{}-nun.madadata", dir, name));
+    Ok(v)
+}
 fn scenario_connections(sc: &str) -> Result<Violations, String> {
     if sc == "busy" { return scenario_connections_busy(); }
+    if let Some(k) = sc.strip_prefix("restored|") { return scenario_connections_restored(k.parse().map_err(|_| "bad count")?); }
     // sc = events separated by '.':  <session a|b|c><op>  ops: d (use-db d tok) e (use-db e etok) u (use-db d usr ut) x (use-db d wrong) l (disconnect) w (set $connections 9)
     let w = mk_world(0);
     {   let (mut admin, mut arx) = Client::new_empty_and_receiver();
@@ -1728,6 +1810,7 @@ fn all_connections_scenarios() -> Vec<String> {
     }
     rec(&evs, &mut vec![], if deep() { 5 } else { 4 }, &mut out);
     out.push("busy".into());
+    for k in ["restored|0", "restored|1", "restored|3"] { out.push(k.to_string()); }
     out
 }
 
@@ -1933,6 +2016,29 @@ fn scenario_election(sc: &str) -> Result<Violations, String> {
     // sc = "<role>.<members>.<own start time>.<candidate start time | new>"   role in {s,p,c} (StartingUp / Primary / Secoundary), members in {1,2}
     use nundb::election_ops::{election_eval, start_new_election};
     let p: Vec<&str> = sc.split('.').collect();
+    if p.len() == 2 && p[0] == "alive" {
+        // `election alive <node>` is what a YOUNGER node answers a candidate it yields to: the candidate (and any other node) that receives it keeps its role and says nothing -
+        // it must go on waiting for its acknowledgements and claim
+        let (s1, mut sup): (Sender<String>, Receiver<String>) = channel(1000);
+        let (s2, mut rep): (Sender<String>, Receiver<String>) = channel(1000);
+        let dbs = Arc::new(Databases::new("u".into(), "p".into(), "me:1".into(), "ext:1".into(), s1, s2, HashMap::new(), 5, true));
+        let role0 = match p[1] { "s" => ClusterRole::StartingUp, "p" => ClusterRole::Primary, _ => ClusterRole::Secoundary };
+        dbs.node_state.swap(role0 as usize, std::sync::atomic::Ordering::Relaxed);
+        dbs.add_cluster_member(ClusterMember { name: "me:1".into(), role: role0, sender: None });
+        dbs.add_cluster_member(ClusterMember { name: "other:1".into(), role: ClusterRole::Secoundary, sender: None });
+        let mut v: Violations = vec![];
+        let (mut peer, mut prx) = Client::new_empty_and_receiver(); peer.auth.swap(true, std::sync::atomic::Ordering::Relaxed);
+        for line in ["election alive other:1", "rp 77 election alive other:1"] {
+            if catch_unwind(AssertUnwindSafe(|| { process_request(line, &dbs, &mut peer); })).is_err() { v.push("C10.safety".into()); return Ok(v); }
+            let same_role = dbs.get_role() == role0;
+            // (the line itself is relayed on the replication channel as `election active <node>` - replicate_request - which is not a candidacy, a claim or an announcement)
+            let quiet = drain(&mut sup).is_empty() && drain(&mut rep).iter().all(|m| !m.contains("election candidate") && !m.contains("election win") && !m.contains("set-primary"));
+            chk(&mut v, "C07.alive-answer-changes-nothing", same_role && quiet);
+            chk(&mut v, "C07.older-candidate-wins", same_role);
+        }
+        drain(&mut prx);
+        return Ok(v);
+    }
     if p.len() != 4 { return Err("bad election scenario".into()); }
     let (s1, mut sup): (Sender<String>, Receiver<String>) = channel(1000);
     let (s2, mut rep): (Sender<String>, Receiver<String>) = channel(1000);
@@ -2014,6 +2120,7 @@ fn all_election_scenarios() -> Vec<String> {
     for r in ["s", "p", "c"] { for m in ["1", "2", "2r"] { for own in ["5", "1000", "340282366920938463463374607431768211455"] {
         for c in ["4", "5", "6", "0", "999", "1000", "1001", "340282366920938463463374607431768211454", "340282366920938463463374607431768211455", "new", "war"] {
             out.push(format!("{}.{}.{}.{}", r, m, own, c)); } } } }
+    for r in ["s", "p", "c"] { out.push(format!("alive.{}", r)); }
     out
 }
 
@@ -2421,6 +2528,9 @@ fn all_flood_scenarios() -> Vec<String> {
 }
 fn all_lines_scenarios() -> Vec<String> {
     let mut nest: Vec<String> = vec!["NEST|2".into(), "NEST|400".into(), "NEST|20000".into()];
+    // the read-only debug sub-commands with arguments at the edges of the integer types (the sub-commands that start elections or change roles are left out)
+    for sub in ["pending-ops", "pendding-conflitcts", "list-dbs", "process-info", "nosuch"] { for arg in ["", " 0", " 1", " -1", " 18446744073709551615", " 4294967296", " 9223372036854775808", " x", " 1 2 3"] {
+        nest.push(format!("CHILD|debug {}{}", sub, arg)); } }
     let words = ["get", "get-safe", "set", "set-safe", "remove", "increment", "keys", "ls", "watch", "unwatch", "unwatch-all", "use", "use-db", "auth", "create-db", "create-user",
         "set-permissions", "snapshot", "election", "election candidate", "election win", "ack", "rp", "replicate", "replicate-remove", "replicate-increment", "replicate-since",
         "replicate-snapshot", "resolve", "debug", "arbiter", "cluster-state", "metrics-state", "list-commands", "set-primary", "set-secoundary", "nosuch", ""];
@@ -2554,6 +2664,18 @@ fn main() {
                 format!("{{\"label\":\"{}\",\"scenario\":\"{}\",\"all\":[{}]}}", l, esc(s), scs.join(","))
             }).collect();
             println!("{{\"scenarios\":{},\"executed\":{},\"families\":{{{}}},\"violations\":[{}]}}", n, nontrivial, fams.join(","), viol.join(","));
+        }
+        "line-child" => {
+            // one command line of an ADMINISTRATOR that has selected database d, in a process of its own (an allocation failure or a stack overflow aborts the process and cannot be
+            // caught in process).  Exit 0: no panic, and the node still serves a second client
+            let line = a[2..].join(" ");
+            let w = mk_world(0);
+            let (mut c, mut rx) = Client::new_empty_and_receiver();
+            for l in ["auth u p", "use-db d tok"] { run_cmd(&w, &mut c, &mut rx, l); }
+            let ok = catch_unwind(AssertUnwindSafe(|| { let _ = run_cmd(&w, &mut c, &mut rx, &line); })).is_ok();
+            let (mut c2, mut rx2) = Client::new_empty_and_receiver();
+            let (r, _) = run_cmd(&w, &mut c2, &mut rx2, "use-db d tok");
+            std::process::exit(if !ok { 4 } else if is_err(&r) { 3 } else { 0 });
         }
         "nest-child" => {
             // one hostile line in a process of its own (a stack overflow cannot be caught in process): `rp 1 rp 1 ... get k`, nested <label> times, handled by a thread with the
